@@ -15,6 +15,8 @@ Units
 """
 import copy
 import itertools
+import os
+import tempfile
 
 import gffutils
 from gffutils.feature import Feature
@@ -742,7 +744,13 @@ def run_models(U, what):
 
     # (c) end to end through create_db on GFF3 text
     m = text_model()
-    db = gffutils.create_db(GFF_TEXT, ":memory:", from_string=True)
+    fd, path = tempfile.mkstemp(suffix=".gff3", dir=tempfile.gettempdir())
+    try:
+        with os.fdopen(fd, "w") as fh:
+            fh.write(GFF_TEXT)
+        db = gffutils.create_db(path, ":memory:")
+    finally:
+        os.unlink(path)
     nmodels += 1
     opts = [(sel, eft, nft, merge, numeric) for sel in SELECTIONS for eft in ("exon", "CDS") for nft in ("intron", None)
             for merge in (True, False) for numeric in (False, True)]
